@@ -695,7 +695,116 @@ def _guarded_caches(ctx, P):
                        'no failing exit after the store (or the cache is reset first)' if w is None else
                        'the cache is filled before a read that can fail: after the error the next call finds %s >= 0 and returns it with result 0' % fld,
                        w.render() if w else None)
+    # pointer-valid guards:  if (NULL != X->cache) return 0;  ... X->cache = alloc(); fill(X->cache) ...
+    n2 = 0
+    for fn in P.all_functions():
+        if fn.file not in ('src/core.c', 'src/reader.c', 'src/track.c'):
+            continue
+        guards = []
+        for b in fn.blocks.values():
+            c = strip_casts(b.cond) if b.cond is not None else None
+            if c is None or len(b.succs) < 2:
+                continue
+            x, lab = None, 'T'
+            if c.get('op') == 'bin' and c['o'] in ('!=', '=='):
+                for u, v in ((c['k'][0], c['k'][1]), (c['k'][1], c['k'][0])):
+                    if const_of(strip_casts(u)) == 0 and strip_casts(v).get('op') == 'member':
+                        x, lab = strip_casts(v), ('T' if c['o'] == '!=' else 'F')
+            elif c.get('op') == 'member':
+                x = c
+            if x is None or not x.get('t', '').startswith('p:'):
+                continue
+            i = [k for k, (s_, l_) in enumerate(b.succs) if l_ == lab]
+            if not i:
+                continue
+            w = find_path(fn, (b, i[0]), lambda ev, facts: 'stop' if ev.k == 'call' else
+                          ('target' if (ev.k == 'ret' and ret_class(fn, ev, facts) == 'zero') else None))
+            if w is not None:
+                guards.append((b, x))
+        for gb, gx in guards:
+            def kind(ev, gx=gx):
+                if ev.k != 'store':
+                    return None
+                lhs, rhs, o = ev.store_parts()
+                if show(strip_casts(lhs)) != show(gx) or o != '=' or rhs is None:
+                    return None
+                return 'reset' if const_of(strip_casts(rhs)) == 0 else 'set'
+            for ev in [e_ for e_ in fn.stores() if kind(e_) == 'set']:
+                n2 += 1
+                ctx.saw(fn, 1)
+
+                def on_event(e2, facts):
+                    if kind(e2) == 'reset':
+                        return 'stop'
+                    if e2.k == 'ret' and e2.e is not None:
+                        rc_ = ret_class(fn, e2, facts)
+                        if rc_ == 'nonzero' or (rc_ == 'unknown' and strip_casts(e2.e).get('op') == 'call'):
+                            return 'target'
+                    return None
+                # the NULL edge of the allocation test right after the store is not a failing exit with the cache attached
+                null_edges = set()
+                for bb in fn.blocks.values():
+                    cc = strip_casts(bb.cond) if bb.cond is not None else None
+                    if cc is not None and cc.get('op') == 'bin' and cc['o'] in ('==', '!=') and \
+                            any(const_of(strip_casts(k_)) == 0 for k_ in cc['k']) and any(show(strip_casts(k_)) == show(gx) for k_ in cc['k']):
+                        null_edges.add((bb.id, 'T' if cc['o'] == '==' else 'F'))
+                    elif cc is not None and cc.get('op') == 'un' and cc.get('o') == '!' and show(strip_casts(cc['k'][0])) == show(gx):
+                        null_edges.add((bb.id, 'T'))
+                w = find_path(fn, ev, on_event, edge_ok=lambda b_, s_, lab_: (b_.id, lab_) not in null_edges)
+                ctx.ob('C04.9', w is None, fn.name, 'store to the cached %s' % show(gx)[-40:], ev.where(),
+                       'the object is attached only where no failing exit follows (or it is detached first)' if w is None else
+                       'the object is attached before it is filled by reads that can fail: after the error the next call finds %s != NULL, skips the load and answers from the partial content with result 0' % show(gx)[-30:],
+                       w.render() if w else None)
+    # marker guards:  if (X.offset) { ... in range ... return 0; }   with   X = <chunk just read>   as the fill
+    n3 = 0
+    for fn in P.all_functions():
+        if fn.file not in ('src/core.c', 'src/reader.c', 'src/track.c'):
+            continue
+        guards = []
+        for b in fn.blocks.values():
+            c = strip_casts(b.cond) if b.cond is not None else None
+            if c is None or len(b.succs) < 2 or c.get('op') != 'member' or not c.get('t', '').startswith(('i', 'u')):
+                continue
+            i = [k for k, (s_, l_) in enumerate(b.succs) if l_ == 'T']
+            w = find_path(fn, (b, i[0]), lambda ev, facts: 'stop' if ev.k == 'call' else
+                          ('target' if (ev.k == 'ret' and ret_class(fn, ev, facts) == 'zero') else None)) if i else None
+            if w is not None:
+                guards.append((b, c))
+        for gb, gx in guards:
+            gtxt = show(gx)
+
+            def kind(ev, gtxt=gtxt):
+                if ev.k != 'store':
+                    return None
+                lhs, rhs, o = ev.store_parts()
+                ltxt = show(strip_casts(lhs))
+                if o != '=' or rhs is None:
+                    return None
+                if ltxt == gtxt:
+                    return 'reset' if const_of(strip_casts(rhs)) == 0 else 'set'
+                if gtxt.startswith(ltxt + '.') or gtxt.startswith(ltxt + '->'):
+                    return 'set'          # the whole object that holds the marker is assigned
+                return None
+            for ev in [e_ for e_ in fn.stores() if kind(e_) == 'set']:
+                n3 += 1
+                ctx.saw(fn, 1)
+
+                def on_event(e2, facts):
+                    if kind(e2) == 'reset':
+                        return 'stop'
+                    if e2.k == 'ret' and e2.e is not None:
+                        rc_ = ret_class(fn, e2, facts)
+                        if rc_ == 'nonzero' or (rc_ == 'unknown' and strip_casts(e2.e).get('op') == 'call'):
+                            return 'target'
+                    return None
+                w = find_path(fn, ev, on_event)
+                ctx.ob('C04.9', w is None, fn.name, 'store to the validity marker %s' % gtxt[-40:], ev.where(),
+                       'marked valid only where no failing exit follows (or the marker is cleared first)' if w is None else
+                       'the cache is marked valid before everything it stands for was read: after the error the next call finds %s set, skips the reads and uses what an earlier call left in the companion buffers' % gtxt[-30:],
+                       w.render() if w else None)
     ctx.floor('stores to guarded caches', n, 1)
+    ctx.floor('stores to pointer-guarded caches', n2, 1)
+    ctx.floor('stores to marker-guarded caches', n3, 1)
 
 
 # ---- C04.10: opening a file does not swallow a failed chunk read
